@@ -41,7 +41,14 @@ type srv struct {
 	w    int
 }
 
+// poolScale is a factor common to every weight of the pool being generated (1 for most
+// pools): very large weights whose greatest common divisor is itself huge.
+var poolScale = 1
+
 func genWeight(t *rapid.T, max int) int {
+	if poolScale > 1 {
+		return rapid.IntRange(0, 12).Draw(t, "wscaled") * poolScale
+	}
 	switch rapid.IntRange(0, 5).Draw(t, "wclass") {
 	case 0:
 		return rapid.IntRange(1, 9).Draw(t, "wsmall")
@@ -78,6 +85,16 @@ func buildPool(t *rapid.T, next http.Handler, maxW int) (*roundrobin.RoundRobin,
 			}
 		}
 		return -1
+	}
+	poolScale = 1
+	if maxW > 64 && rapid.IntRange(0, 5).Draw(t, "scaled") == 0 { // (the concurrent test runs whole rotations: no huge ones there)
+		// 14 servers x 12 x 5 x 2^52 stays below 2^62
+		odd := rapid.SampledFrom([]int{1, 3, 5, 1000003}).Draw(t, "scaleOdd")
+		maxShift := 52
+		if odd > 5 {
+			maxShift = 32
+		}
+		poolScale = odd << rapid.IntRange(16, maxShift).Draw(t, "scaleShift")
 	}
 	nInit := rapid.IntRange(1, 6).Draw(t, "nservers")
 	for i := 0; i < nInit; i++ {
@@ -243,6 +260,30 @@ func TestC01_Windows(t *testing.T) {
 			return
 		}
 		W := sum / g
+		if W > 10*capSelections() {
+			// one rotation is out of reach (huge weights next to a small one): within any part of
+			// a rotation server i is chosen at most w_i/g times, and a zero weight never
+			N := capSelections()
+			count := map[string]int{}
+			for i := 0; i < N; i++ {
+				s, ok := sel()
+				if !ok {
+					t.Fatalf("selection %d failed on a pool with positive weights %v", i, model)
+				}
+				count[s]++
+			}
+			for _, m := range model {
+				if count[m.name] > m.w/g {
+					t.Fatalf("pool %v: %s chosen %d times within %d selections, more than its %d slots per rotation", model, m.name, count[m.name], N, m.w/g)
+				}
+				delete(count, m.name)
+			}
+			if len(count) > 0 {
+				t.Fatalf("pool %v: selections of non-members %v", model, count)
+			}
+			vstat.Case(sig, true, []string{"rotation-longer-than-budget"}, nil)
+			return
+		}
 		if W > capSelections() {
 			// too long for this tier: scale is still checked by the share over one rotation
 			W0 := W
@@ -299,6 +340,9 @@ func TestC01_Windows(t *testing.T) {
 		}
 		if g > 1 {
 			cl = append(cl, "gcd>1")
+		}
+		if g >= 1<<33 {
+			cl = append(cl, "gcd>=2^33")
 		}
 		if hist {
 			cl = append(cl, "history-with-reweight-or-remove")
